@@ -2,7 +2,7 @@
    (informativeb) and the carriers of a base *)
 From Coq Require Import ZArith List Bool Lia Permutation Sorting.Sorted.
 Import ListNotations.
-From SCMO Require Import Lib.Val Model.C18 Proofs.C18_a.
+From SCMO Require Import Lib.Val Gen.GenAlleles Model.C18 Proofs.C18_s Proofs.C18_a.
 Open Scope Z_scope.
 
 (* ------------------------------------------------------------------ a sequence of bases_to_alleles[b].add(s) *)
@@ -105,7 +105,7 @@ Lemma scan_rec_events cf r : scan_rec cf r = scan_events (events cf r) scan0.
 Proof.
   unfold scan_rec, events. generalize scan0. induction (r_gts r) as [|g gs IH]; intros st; [reflexivity|].
   cbn [fold_left flat_map]. rewrite scan_events_app, IH. f_equal.
-  unfold scan_sample. destruct (selected cf (fst g)); [apply scan_inner|reflexivity].
+  unfold scan_sample. rewrite gselected_shape, alleles_seen_shape. destruct (selected cf (fst g)); [apply scan_inner|reflexivity].
 Qed.
 
 Lemma scan_events_cons e es st : scan_events (e :: es) st = scan_events es (scan_allele (fst e) st (snd e)).
@@ -118,35 +118,35 @@ Lemma scan_events_bm es : forall st, s_bm (scan_events es st) = badd_all (pairs_
 Proof.
   induction es as [|[s a] es IH]; intros st; [reflexivity|].
   rewrite scan_events_cons, IH, pairs_of_cons. cbn [fst snd]. unfold scan_allele.
-  destruct a as [b|]; [|reflexivity]. destruct (single b); reflexivity.
+  destruct a as [b|]; [|reflexivity]. rewrite gsingle_shape. destruct (single b); reflexivity.
 Qed.
 Lemma scan_events_used es : forall st,
   s_used (scan_events es st) = s_used st || existsb (fun e => is_some_single (snd e)) es.
 Proof.
   induction es as [|[s a] es IH]; intros st; [cbn; rewrite orb_false_r; reflexivity|].
   rewrite scan_events_cons, IH. cbn [fst snd existsb]. unfold scan_allele, is_some_single at 2.
-  destruct a as [b|]; cbn; [|reflexivity]. destruct (single b); cbn; [rewrite orb_true_r|]; reflexivity.
+  destruct a as [b|]; [rewrite gsingle_shape|]; cbn; [|reflexivity]. destruct (single b); cbn; [rewrite orb_true_r|]; reflexivity.
 Qed.
 Lemma scan_events_mono es : forall st,
   s_mono (scan_events es st) = s_mono st || existsb (fun e => is_missing (snd e)) es.
 Proof.
   induction es as [|[s a] es IH]; intros st; [cbn; rewrite orb_false_r; reflexivity|].
   rewrite scan_events_cons, IH. cbn [fst snd existsb]. unfold scan_allele, is_missing at 2.
-  destruct a as [b|]; cbn; [|rewrite orb_true_r; reflexivity]. destruct (single b); reflexivity.
+  destruct a as [b|]; [rewrite gsingle_shape|]; cbn; [|rewrite orb_true_r; reflexivity]. destruct (single b); reflexivity.
 Qed.
 Lemma scan_events_bad es : forall st,
   s_bad (scan_events es st) = s_bad st || existsb (fun e => is_multi (snd e)) es.
 Proof.
   induction es as [|[s a] es IH]; intros st; [cbn; rewrite orb_false_r; reflexivity|].
   rewrite scan_events_cons, IH. cbn [fst snd existsb]. unfold scan_allele, is_multi at 2.
-  destruct a as [b|]; cbn; [|reflexivity]. destruct (single b); cbn; [reflexivity|rewrite orb_true_r; reflexivity].
+  destruct a as [b|]; [rewrite gsingle_shape|]; cbn; [|reflexivity]. destruct (single b); cbn; [reflexivity|rewrite orb_true_r; reflexivity].
 Qed.
 Lemma scan_events_assigned es : forall st,
   s_assigned (scan_events es st) = fold_left (fun acc y => sins y acc) (map snd (pairs_of es)) (s_assigned st).
 Proof.
   induction es as [|[s a] es IH]; intros st; [reflexivity|].
   rewrite scan_events_cons, IH, pairs_of_cons. cbn [fst snd]. unfold scan_allele.
-  destruct a as [b|]; [|reflexivity]. destruct (single b); reflexivity.
+  destruct a as [b|]; [|reflexivity]. rewrite gsingle_shape. destruct (single b); reflexivity.
 Qed.
 
 (* ---- what the event list contains, in terms of the genotypes *)
@@ -248,7 +248,7 @@ Qed.
 Lemma informative_phased cf r : c_phased cf = true ->
   informative cf r = if informativeb cf r then Some (badd_all (site_pairs cf r) []) else None.
 Proof.
-  intros Hp. unfold informative, informativeb, phased_site. rewrite Hp.
+  intros Hp. rewrite informative_shape. unfold informative_ref, informativeb, phased_site_ref. rewrite Hp.
   rewrite (ignored_keys cf r _ (bases_of cf r)).
   2:{ intros x. rewrite phased_bm, badd_all_keys, bases_of_pairs, canon_In. cbn. tauto. }
   rewrite phased_used, phased_mono, phased_bad, phased_assigned, phased_nbases, phased_bm.
@@ -275,7 +275,7 @@ Proof. induction l1 as [|a l1 IH]; intros [|b l2]; cbn; try reflexivity. f_equal
 Lemma informative_unphased cf r : c_phased cf = false ->
   informative cf r = if informativeb cf r then Some (badd_all (upairs r) []) else None.
 Proof.
-  intros Hp. unfold informative, informativeb, unphased_site. rewrite Hp.
+  intros Hp. rewrite informative_shape. unfold informative_ref, informativeb, unphased_site_ref. rewrite Hp.
   destruct (forallb single (alleles r)) eqn:E; [|reflexivity].
   rewrite fold_badd_swap. fold (upairs r).
   rewrite (ignored_keys cf r _ (firstn 6 (alleles r))).
